@@ -24,7 +24,13 @@ DEDUCTIVE = [{"module": "rnapolis.tertiary", "sidecar": "contracts.geometry_lemm
              # "renamed order-preservingly (up to that renaming)": the residue order the output is sorted and oriented by IS the
              # lexicographic order of (model, chain, number, insertion code) on plain string / integer comparison - the order the
              # rename_* lemmas are stated for (a case-folding or length-first chain comparison is a different order)
-             {"module": "rnapolis.tertiary", "sidecar": "contracts.annotator_c", "targets": ["Residue3D.__lt__"]}]
+             {"module": "rnapolis.tertiary", "sidecar": "contracts.annotator_c", "targets": ["Residue3D.__lt__"]},
+             # "the same atoms supplied as PDB instead of mmCIF": both residue-level readers decode a record / a row to the
+             # fields as written (the contracts of C08: fixed PDB columns incl. four-character and negative residue numbers;
+             # atom_site items incl. both null markers) - hence to the same atoms
+             {"module": "rnapolis.parser", "sidecar": "contracts.parser_c", "targets": ["parse_pdb@decode", "lemma:record_names", "lemma:decoded_snoc"]},
+             {"module": "rnapolis.parser", "sidecar": "contracts.parser_cif_c", "targets": ["try_parse_int", "parse_cif@decode"],
+              "opts": {"z3_probe_ms": 400, "cvc5_probe_s": 6}}]
 TRUSTED = ["numpy", "scipy KD-tree", "mmcif reader", "CPython 3.12",
            "z3 5.1.0 / cvc5 1.0.3 (every lemma obligation is discharged by z3; ring identities by its polynomial normaliser)",
            "numpy.linalg.norm(v) is the non-negative real n with n*n == v.v (contracts/externals.py np_norm; used by inv_dist / inv_torsion only)",
@@ -172,6 +178,17 @@ def bounded(tier, seed):
             report(tag, "renaming", diff(base, summary(s2, back)))
         except Exception as e:
             report(tag, "renaming", f"raised {type(e).__name__}: {e}")
+        # the same atoms as PDB and as mmCIF with residue numbers that fill the four PDB columns (>= 1000 or <= -100)
+        if fits_pdb(s) and max((r.number for r in s.residues), default=0) < 5000:
+            ev += 1
+            try:
+                shift = rng.choice([1000, 4000, -600])
+                s3 = G.rebuild(s, ident_fn=lambda label, auth: (None if auth is not None else label,
+                                                                 type(auth)(auth.chain, auth.number + shift, auth.icode, auth.name) if auth is not None else None))
+                if all(-999 <= r.number <= 9999 for r in s3.residues):
+                    report(tag, "pdb-vs-cif-wide-numbers", diff(summary(via_file(s3, "pdb")), summary(via_file(s3, "cif"))))
+            except Exception as e:
+                report(tag, "pdb-vs-cif-wide-numbers", f"raised {type(e).__name__}: {e}")
         if len(samples) < 3:
             samples.append({"structure": tag, "pairs": len(base["pairs"]), "stackings": len(base["stackings"])})
     return [{"name": "presentation", "evaluations": ev, "distinct_nontrivial": nt, "violations": viol, "samples": samples,
